@@ -1941,6 +1941,14 @@ class GvnDomain:
         return out
 
     def func2(self, fn, a, b):
+        # max / min of ONE symbol against a non-zero literal (np.maximum(rho, 1e-6), a floor, a cap): the witness sampler must
+        # visit BOTH sides of that threshold -- the default ranges (0.3 .. 3) never reach a floor of 1e-6
+        for x, c in ((a, b), (b, a)):
+            cv = c.const_value() if hasattr(c, "const_value") else None
+            if cv is not None and cv != 0 and not x.den and len(x.num) == 1:
+                (mono, coef), = x.num.items()
+                if len(mono) == 1 and mono[0][1] == 1 and self.alg.atoms[mono[0][0]].kind == "sym":
+                    self.alg.threshold_hints.setdefault(self.alg.atoms[mono[0][0]].name, []).append(float(cv) / float(coef))
         r = self.alg.maximum(a, b) if fn == "maximum" else self.alg.minimum(a, b)
         # lattice normal form: the flattened set of operands of nested min (resp. max)
         kind = "max" if fn == "maximum" else "min"
